@@ -1,7 +1,7 @@
 """C12 - cumulative products: structural clauses."""
 import ast
 from ..core import RuleResult, Finding, AnalysisError, dotted, src, norm_construct
-from ..expr import inline_straight, returns_of, dump
+from ..expr import inline_straight, returns_of, dump, rv, Inliner
 from ..kinds import kind, INT_DTYPES
 from .. import paths
 
@@ -121,13 +121,16 @@ def branch_calls(finfo):
     for ev, ex in pths:
         truth = None
         ret = None
+        inl = Inliner()
         for e in ev:
             if e[0] == 'assume':
                 t = _left_truth(e[1], e[2])
                 if t is not None:
                     truth = t
             if e[0] == 'stmt' and isinstance(e[1], ast.Return):
-                ret = e[1].value
+                ret = inl.value(e[1].value) if e[1].value is not None else None
+            elif e[0] == 'stmt':
+                inl.feed(e[1])
         if ex != 'return' or ret is None:
             continue
         if isinstance(ret, ast.IfExp):
@@ -308,13 +311,14 @@ def rule_deleg(repo, tier):
         f = repo.func(LT, 'LieType.' + n)
         rets = returns_of(f.node)
         tgt = None
-        if len(rets) == 1 and isinstance(rets[0].value, ast.Call):
-            t = repo.resolve_call(f, rets[0].value, by_name=False)[0]
+        v0 = rv(f.node, rets[0]) if len(rets) == 1 else None
+        if isinstance(v0, ast.Call):
+            t = repo.resolve_call(f, v0, by_name=False)[0]
             tgt = t[0] if t else None
         ok = tgt is not None and tgt.module.name == OPS and tgt.name == n
         # arguments forwarded in order
         if ok:
-            args = [a.id if isinstance(a, ast.Name) else None for a in rets[0].value.args]
+            args = [a.id if isinstance(a, ast.Name) else None for a in v0.args]
             ok = args == f.pos_params[1:1 + len(args)] and len(args) == 3
         res.inst({'function': f.fq, 'target': tgt.fq if tgt else None})
         if not ok:
@@ -323,8 +327,9 @@ def rule_deleg(repo, tier):
         g = repo.func(LT, 'LieTensor.' + n)
         rets = returns_of(g.node)
         ok = False
-        if len(rets) == 1 and isinstance(rets[0].value, ast.Call):
-            c = rets[0].value
+        v0 = rv(g.node, rets[0]) if len(rets) == 1 else None
+        if isinstance(v0, ast.Call):
+            c = v0
             ok = dotted(c.func) == 'self.ltype.' + n and [dotted(a) for a in c.args] == ['self'] + g.pos_params[1:]
         res.inst({'function': g.fq, 'ok': ok})
         if not ok:
